@@ -316,7 +316,7 @@ def expected_script_forest(case):
         if h in nodes and h not in finished:
             finished.add(h)
             nodes[h]["status"] = "failed" if exn is not None else "succeeded"
-    for c, o in oplists.ctx_ops(case):
+    for c, o in oplists.model_ops(case):
         st = stacks.setdefault(c, [])
         cur = st[-1] if st else None
         k = o[0]
